@@ -187,14 +187,14 @@ def _nontrivial(sim):
 
 def run(ctx):
     res = Result()
-    run_histories(ctx, res, ctx.n(2400, 60000), lambda r: [Progress(r)],
+    run_histories(ctx, res, ctx.n(2400, 24000), lambda r: [Progress(r)],
                   after=_after, nontrivial=_nontrivial, salt='c04')
     # simple request streams: the fit oracle applies to all of them
-    run_histories(ctx, res, ctx.n(1200, 30000), lambda r: [Progress(r)],
+    run_histories(ctx, res, ctx.n(1200, 12000), lambda r: [Progress(r)],
                   gen_kwargs={'simple': True, 'allow_app_slots': False},
                   after=_after, nontrivial=_nontrivial, salt='c04s')
     rng = ctx.rng('prio')
-    for i in range(ctx.n(800, 20000)):
+    for i in range(ctx.n(800, 8000)):
         case = priority_scenario(ctx, res, rng, i)
         res.evaluations += 1
         res.digests.add(digest(case))
